@@ -1,0 +1,28 @@
+//go:build verif
+
+package bytecode
+
+// Contracts for internal/bytecode on amd64 (checked by /verif/bin/govc; comment-only).
+
+// func_extent(a): the length GetFuncSize's scan reports for the function at a.  Uninterpreted:
+// whether it is <= the real distance to the next function is a fact about linker output.
+//@ uninterp func func_extent(start uintptr) int
+// funcvalue_word(v): the data word of a reflect.Value holding a func, i.e. the address of the
+// func value (closure object), NOT the code pointer.
+//@ uninterp func funcvalue_word(v reflect.Value) uintptr
+
+//@ trusted func GetFuncSize
+//@   props C14 C03 C16
+//@   assigns nothing
+//@   ensures never_fails: err == nil
+//@   ensures extent: length == func_extent(start) && 0 <= length && length < 0x100000
+
+//@ trusted func GetPtr
+//@   props C01
+//@   pure
+//@   ensures word: addr(result) == funcvalue_word(v)
+
+//@ trusted func PrintInst
+//@   pure
+//@ trusted func PrintInstf
+//@   pure
